@@ -144,8 +144,17 @@ def gen_schedule(rng, topo):
     return evs
 
 
+def add_metrics_outputs(rng, topo):
+    """some publishing nodes get a dedicated metrics output (documented option; the model does not know about it: the data path must not notice)"""
+    ups = topo['ups']
+    pubs = [i for i in range(len(ups)) if any(i in u for u in ups)]
+    if pubs and rng.random() < 0.3:
+        topo['metrics'] = sorted(rng.sample(pubs, rng.randint(1, len(pubs)))); topo['metrics_push'] = rng.random() < 0.5
+    return topo
+
+
 def gen_trial(rng):
-    topo = gen_topology(rng)
+    topo = add_metrics_outputs(rng, gen_topology(rng))
     return {'topo': topo, 'evs': gen_schedule(rng, topo)}
 
 
@@ -160,6 +169,7 @@ class Rig:
         self.Z = fakezmq.install(self.w)
         from openfilter.filter_runtime import mq as M, filter as F
         self.M, self.F = M, F
+        fakezmq.quiet_metrics(M)        # a dedicated metrics output would start psutil sampling threads per MQ: the measurement itself is outside every property
         self.ups = topo['ups']; self.n = len(self.ups)
         self.has_out = [any(i in u for u in self.ups) for i in range(self.n)]
         self.procs = [mk_proc(b, i) for i, b in enumerate(topo['behs'])]
@@ -169,13 +179,16 @@ class Rig:
         self.nodes = [None] * self.n
         self.gen = [0] * self.n
         self.handed = []          # (event index, node, id, [(topic, content, tags)])
+        self.metrics = set(topo.get('metrics') or ())      # nodes with a DEDICATED metrics output (second ZMQSender inside the MQ, nobody listening)
+        self.send_lies = []       # (event index, node): MQ.send() answered False although that very call put a frame set on the wire
+        M.OUTPUTS_METRICS_PUSH = bool(topo.get('metrics_push', True))
         for i in range(self.n): self.build(i)
 
     def build(self, i):
         M = self.M
         srcs = [f'ipc://{cid(u)}' for u in self.ups[i]] or None
         outs = [f'ipc://{cid(i)}'] if self.has_out[i] else None
-        mq = M.MQ(srcs, outs, cid(i), outs_metrics=False, outs_filter=False, mq_log=False)
+        mq = M.MQ(srcs, outs, cid(i), outs_metrics=(f'ipc://{cid(i)}.metrics' if i in self.metrics else False), outs_filter=False, mq_log=False)
         nd = {'mq': mq, 'pending': None, 'has_pending': False, 'count': 0, 'dead': False}
         self.nodes[i] = nd
         if mq.sender is not None:
@@ -225,9 +238,11 @@ class Rig:
     def crash(self, i):
         mq = self.nodes[i]['mq']
         if mq.sender is not None:
-            for s in mq.sender.pulls + mq.sender.pubs: s.close()
+            for s in mq.sender.pulls + mq.sender.pubs: s.crash()
+        if getattr(mq, 'metrics_sender', None) is not None:
+            for s in mq.metrics_sender.pulls + mq.metrics_sender.pubs: s.crash()
         if mq.receiver is not None:
-            for snd in mq.receiver.senders.values(): snd.sub.close(); snd.push.close()
+            for snd in mq.receiver.senders.values(): snd.sub.crash(); snd.push.crash()
 
     def event(self, idx, ev):
         w, F = self.w, self.F
@@ -272,13 +287,15 @@ class Rig:
                 if mq.sender is not None: w.prio = list(mq.sender.pulls)
                 ok = mq.send(nd['pending'], 0)
                 if ok: nd['pending'] = None; nd['has_pending'] = False
+                elif any(x['k'] == 'pub' and x['mid'] >= 0 for x in self.log): self.send_lies.append((idx, i))
                 obs = {'k': 'sent', 'outs': list(self.log)}
         elif k == 'restart':
             if ev['g']: nd['mq'].destroy()
             else: self.crash(i)
             self.gen[i] += 1
-            self.build(i)
             obs = {'k': 'restarted'}
+            try: self.build(i)
+            except Exception as e: obs = {'k': 'restart-failed', 'err': f'{type(e).__name__}: {e}'[:160]}; self.restart_failed = (idx, i, obs['err'])
         else:
             raise ValueError(k)
         w.deliver_due()
@@ -321,7 +338,10 @@ def run_impl(trial):
         out.append((o, rig.snap()))
         if o['k'] == 'rcvd' and any(x['k'] == 'dup' for x in o['outs']): break       # the receiver is in an undefined state after the RuntimeError
     rig.close()
-    return out, rig.handed, {k: v for k, v in rig.pubmid.items()}
+    pm = {k: v for k, v in rig.pubmid.items()}
+    if rig.send_lies: pm['send_lies'] = list(rig.send_lies)
+    if getattr(rig, 'restart_failed', None): pm['restart_failed'] = rig.restart_failed
+    return out, rig.handed, pm
 
 
 def model_request(trial):
@@ -387,6 +407,12 @@ def oracles(trial, handed, pubmid):
     return v
 
 
+def send_oracle(pubmid):
+    """at most once / composition: a send() that put the frame set on the wire must say so (Filter.loop_once() repeats a send that answers False)"""
+    return [('send-failed-after-publish', f"event {idx}: MQ.send() of node {i} returned False although this call put the frame set on the wire - Filter.loop_once() "
+             f"sends the same frames again under the next id (delivered twice downstream)") for idx, i in pubmid.get('send_lies', [])]
+
+
 def origin_mismatch(handed, pubmid, model_origins):
     """model ghost origins (node, gen, mid) vs implementation tags (node, gen, frame number) mapped through the publish log"""
     mo = {idx: fs for idx, fs in model_origins}
@@ -442,7 +468,7 @@ def gen_chain_trial(rng):
                 if rng.random() < 0.15: evs.append({'k': 'recv', 'i': i})
                 if rng.random() < p: evs.append({'k': 'send', 'i': i, 't': t})
                 if rng.random() < 0.15: evs.append({'k': 'send', 'i': i, 't': t})
-    return {'topo': topo, 'evs': evs}
+    return {'topo': add_metrics_outputs(rng, topo), 'evs': evs}
 
 
 def chain_reference(topo, nsrc):
@@ -602,7 +628,7 @@ def gen_rejoin_trial(rng):
                 if rng.random() < p: evs.append({'k': 'recv', 'i': i})
                 if rng.random() < 0.1: evs.append({'k': 'recv', 'i': i})
                 if rng.random() < p: evs.append({'k': 'send', 'i': i, 't': t})
-    return {'topo': topo, 'evs': evs}
+    return {'topo': add_metrics_outputs(rng, topo), 'evs': evs}
 
 
 def rejoin_reference(topo, nsrc):
